@@ -8,7 +8,7 @@
      to run, nothing is left in the tables: C09_end_exactly_once, C09_forgotten). *)
 From Coq Require Import ZArith List Bool Lia.
 From Verif Require Import Base.Wrap Gen.GenConsts Gen.GenFrame Model.RelayItems
-  Proofs.RelayAssocP Proofs.RelayCoreP Proofs.RelayInvP.
+  Proofs.RelayAssocP Proofs.RelayCoreP Proofs.RelayInv9P.
 Import ListNotations.
 Local Open Scope Z_scope.
 
